@@ -11,10 +11,19 @@ NoDev == {}
 DevKept == {"EnvKeptOnAbort"}
 Ideal == INSTANCE ContextInvoke WITH Dev <- NoDev
 Kept == INSTANCE ContextInvoke WITH Dev <- DevKept
+DevAsIs == {"LoadDataTableMutableWithinPage"}
+AsIs == INSTANCE ContextInvoke WITH Dev <- DevAsIs
 
 P == Ideal!Probes
-All == (Ideal!Simple \cup Ideal!Nested) \ {"timeout"}
+LD == Ideal!LoadData
+LDW == {"ldset", "ljset"}
+LDR == {"ldget", "ljget"}
+All == (Ideal!Simple \cup Ideal!Nested) \ ({"timeout"} \cup LD)
 D == Ideal!Disturbing \ {"timeout"}
+\* the loadData family: a write, anything (or a page break) in between, a read
+LDHists == { <<a, b>> : a \in LD, b \in LD }
+      \cup { <<a, x, b>> : a \in LDW, x \in All \cup LD \cup {"page"}, b \in LDR }
+      \cup { <<d, a, b>> : d \in D, a \in LDW, b \in LDR }
 ReadBack == {<<"bump", "peek">>, <<"bump", "reqbump">>, <<"gset", "rget">>, <<"sset", "sget">>}
 
 Hists(t) ==
@@ -25,6 +34,7 @@ Hists(t) ==
     \cup { <<p, d, q>> : p \in P, d \in D, q \in P }
     \cup { <<d, "page", p>> : d \in D, p \in P }
     \cup { <<d, e>> \o rb : d \in D, e \in D, rb \in ReadBack }
+    \cup LDHists
     \cup { <<"timeout", "bump", "bump">> }                      \* the only case that waits for a (short) time limit
   ELSE
        { <<a, b>> : a \in All, b \in All }
@@ -33,6 +43,8 @@ Hists(t) ==
     \cup { <<d, e, p, q>> : d \in D, e \in D, p \in P, q \in {"peek", "reqbump", "gget", "rget", "sget"} }
     \cup { <<d, "page", p>> : d \in D, p \in P }
     \cup { <<d, "page", e, p>> : d \in D, e \in D, p \in P }
+    \cup LDHists
+    \cup { <<a, x, y, b>> : a \in LDW, x \in D \cup {"page"}, y \in P \cup LD, b \in LDR }
     \cup { <<"timeout", p>> : p \in P }
     \cup { <<"timeout">> \o rb : rb \in ReadBack }
     \cup { <<p, "timeout", q>> : p \in {"bump", "gset"}, q \in {"bump", "reqbump", "rget"} }
@@ -42,9 +54,12 @@ Init == hist \in Hists(Tier) /\ done = FALSE
 Next == done = FALSE /\ done' = TRUE /\ UNCHANGED hist
 Spec == Init /\ [][Next]_<<hist, done>>
 Laws == Ideal!MeetsDemand(hist)
-Emit == \E o \in {Ideal!Outcomes(hist)} : \E kp \in {Kept!Outcomes(hist)} :
-          PrintT(<<"CASE", ToJson([hist |-> hist, out |-> o, kept |-> IF kp = o THEN <<>> ELSE kp])>>)
+Emit == \E o \in {Ideal!Outcomes(hist)} : \E kp \in {Kept!Outcomes(hist)} : \E ai \in {AsIs!Outcomes(hist)} :
+          PrintT(<<"CASE", ToJson([hist |-> hist, out |-> o, kept |-> IF kp = o THEN <<>> ELSE kp,
+                                   asis |-> IF ai = o THEN <<>> ELSE ai])>>)
 GenInv == done \/ (Laws /\ Emit)
 \* Demo: with the deviation some history violates the demand (TLC finds it)
 DemoKept == Kept!MeetsDemand(hist)
+\* Demo: with the per-page lifetime of the writable loadData tables some history violates the demand
+DemoLoadData == AsIs!MeetsDemand(hist)
 =============================================================================
